@@ -140,6 +140,7 @@ def run(repo, rep, tier):
                keep=lambda f: f.construct.endswith(".__add__") or f.construct.endswith(".zero"))
     rep.borrow(repo, "C04", {"R4.5": ("R1.11", "a + b and zero() of partial results reloaded from JSON keep what only ed() establishes (the result can be merged again)", 20)},
                keep=lambda f: f.construct.endswith(".__add__") or f.construct.endswith(".__iadd__") or f.construct.endswith(".zero"))
+    rep.borrow(repo, "C02", {"R2.2": ("R1.12", "fill hands the caller's weight to exactly the specified slots: what one chunk records for a datum does not depend on which chunk the datum is in (additivity of fill over partitions)", 150)})
     rep.borrow(repo, "C07", {"R7.2": ("R1.8", "combining partial results with += keeps the receiver (every __iadd__ returns self)", 19),
                              "R7.1": ("R1.9", "+= merges every content field the way + does", 50)})
     for c in prims:
